@@ -28,11 +28,11 @@ import ast
 import itertools
 
 from ..astutil import first_stmt, last_stmt  # noqa: F401
-from ..astutil import (ancestors, call_name, calls_in, guards_of, kwarg, norm, single_def_value,
-                       stmt_of, stores_to, walk_no_nested)
+from ..astutil import (ancestors, call_name, calls_in, conjuncts, guards_of, is_within, kwarg, local_defs, norm,
+                       single_def_value, stmt_of, stores_to, tuple_def_component, walk_no_nested)
 from ..cfg import CFG
-from ..loader import ClassInfo, dotted_name
-from ..resolve import callers_of, resolve_call, resolve_class_call
+from ..loader import ClassInfo, dotted_name, parent
+from ..resolve import callers_of, expr_class, resolve_call, resolve_class_call
 
 STORE = 'trajectories/store.py'
 FS = 'storage/field_sets.py'
@@ -246,107 +246,396 @@ def legal_combinations(ctx, prog):
     return legal
 
 
-def _subject_dims(fi, match: ast.Match):
-    subj = match.subject
-    elts = subj.elts if isinstance(subj, ast.Tuple) else [subj]
-    out = []
-    for e in elts:
-        if isinstance(e, ast.Name):
-            d = single_def_value(fi.node, e.id)
-            e = d if d is not None else e
-        if isinstance(e, ast.Compare) and isinstance(e.ops[0], ast.In) and isinstance(e.left, ast.Attribute) \
-                and norm(e.left.value) == 'Dimension':
-            out.append(e.left.attr)
-        else:
-            return None
-    return out
+_OPQ = object()   # "not a function of the dimension tests alone"
+_CANON = ('SPECIES', 'THRUST_MODE', 'POINT')
 
 
-def _pattern_rows(p: ast.pattern, width: int):
-    """Set of tuples a pattern matches; None for wildcard."""
-    if isinstance(p, ast.MatchAs) and p.pattern is None:
+def shape_label(combo) -> str:
+    return ''.join(d[0] for d in _CANON if combo.get(d)) or 'scalar'
+
+
+class Arm:
+    """The statements a dispatching function executes for one assignment of its dimension tests and for no
+    other reason (what every assignment executes alike - preamble, common tail - is left out)."""
+
+    def __init__(self, body, lineno, indirect=False):
+        self.body = body
+        self.lineno = lineno
+        self.indirect = indirect
+
+    def walk(self):
+        for s in self.body:
+            yield from ast.walk(s)
+
+    @property
+    def kind(self) -> str:
+        """'arm' (does something) | 'refuse' (raises unconditionally) | 'none' (falls through, nothing done)"""
+        f = first_stmt(self.body)
+        if f is None:
+            return 'none'
+        return 'refuse' if isinstance(f, ast.Raise) else 'arm'
+
+
+class Dispatch:
+    """Case analysis of a function over its `Dimension.X in <holder>.dimensions` tests, whatever the control-flow
+    idiom: the body is partially evaluated for every truth assignment of the tests - `match` on a tuple / a single
+    flag (first matching case wins, guards evaluated), if/elif/else chains, nested ifs, guard clauses with early
+    return/raise, flags held in single-definition locals or tuple-unpacked, `not`/`and`/`or`/`==`/`!=`/`is` over
+    them, comparison of a tuple of flags with a literal tuple, conditional expressions, a dict literal keyed by the
+    flag tuple.  Conditions that do not depend on the tests alone stay in the arm as they are."""
+
+    def __init__(self, fi):
+        self.fi = fi
+        tests = sorted((n for n in walk_no_nested(fi.node) if self.dim_of(n) is not None),
+                       key=lambda n: (n.lineno, n.col_offset))
+        self.dims = []
+        holders = set()
+        for t in tests:
+            d = t.left.attr
+            if d not in self.dims:
+                self.dims.append(d)
+            h = t.comparators[0]
+            if isinstance(h, ast.Name):
+                v = single_def_value(fi.node, h.id)
+                h = v if v is not None and h.id not in fi.params else h
+            holders.add(norm(h))
+        if len(holders) > 1:
+            raise ValueError(f'dimension tests on different objects: {sorted(holders)}')
+        self.indirect = set()
+        self._flagname = {}
+
+    @staticmethod
+    def dim_of(e):
+        if isinstance(e, ast.Compare) and len(e.ops) == 1 and isinstance(e.ops[0], (ast.In, ast.NotIn)) \
+                and isinstance(e.left, ast.Attribute) and norm(e.left.value) == 'Dimension':
+            return e.left.attr, isinstance(e.ops[0], ast.In)
         return None
-    if isinstance(p, ast.MatchOr):
-        rows = set()
-        for q in p.patterns:
-            r = _pattern_rows(q, width)
-            if r is None:
-                return None
-            rows |= r
-        return rows
-    if isinstance(p, ast.MatchSequence) and len(p.patterns) == width:
-        opts = []
-        for q in p.patterns:
-            if isinstance(q, ast.MatchSingleton):
-                opts.append([q.value])
-            elif isinstance(q, ast.MatchValue) and isinstance(q.value, ast.Constant):
-                opts.append([q.value.value])
-            elif isinstance(q, ast.MatchAs) and q.pattern is None:
-                opts.append([False, True])
+
+    # -- expressions ------------------------------------------------------
+    def _local_value(self, name):
+        if name in self.fi.params:
+            return None
+        v = single_def_value(self.fi.node, name)
+        if v is None:
+            tc = tuple_def_component(self.fi.node, name)
+            if tc is not None and isinstance(tc[0], (ast.Tuple, ast.List)) and len(tc[0].elts) > tc[1] \
+                    and not any(isinstance(x, ast.Starred) for x in tc[0].elts):
+                v = tc[0].elts[tc[1]]
+        return v
+
+    def ev(self, e, env, depth=0):
+        """True | False | tuple of such | _OPQ"""
+        if depth > 8:
+            return _OPQ
+        if isinstance(e, ast.Constant) and isinstance(e.value, bool):
+            return e.value
+        d = self.dim_of(e)
+        if d is not None:
+            return env[d[0]] if d[1] else not env[d[0]]
+        if isinstance(e, ast.Name):
+            v = self._local_value(e.id)
+            return _OPQ if v is None else self.ev(v, env, depth + 1)
+        if isinstance(e, ast.NamedExpr):
+            return self.ev(e.value, env, depth + 1)
+        if isinstance(e, ast.UnaryOp) and isinstance(e.op, ast.Not):
+            v = self.ev(e.operand, env, depth + 1)
+            return (not v) if isinstance(v, bool) else _OPQ
+        if isinstance(e, ast.BoolOp):
+            vs = [self.ev(v, env, depth + 1) for v in e.values]
+            if any(not isinstance(v, bool) and v is not _OPQ for v in vs):
+                return _OPQ
+            if isinstance(e.op, ast.And):
+                return False if any(v is False for v in vs) else (True if all(v is True for v in vs) else _OPQ)
+            return True if any(v is True for v in vs) else (False if all(v is False for v in vs) else _OPQ)
+        if isinstance(e, (ast.Tuple, ast.List)):
+            vs = [self.ev(v, env, depth + 1) for v in e.elts]
+            return _OPQ if any(v is _OPQ for v in vs) else tuple(vs)
+        if isinstance(e, ast.Compare) and len(e.ops) == 1 and isinstance(e.ops[0], (ast.Eq, ast.NotEq, ast.Is, ast.IsNot)):
+            a, b = self.ev(e.left, env, depth + 1), self.ev(e.comparators[0], env, depth + 1)
+            if a is _OPQ or b is _OPQ:
+                return _OPQ
+            return (a == b) if isinstance(e.ops[0], (ast.Eq, ast.Is)) else (a != b)
+        if isinstance(e, ast.IfExp):
+            t = self.ev(e.test, env, depth + 1)
+            if isinstance(t, bool):
+                return self.ev(e.body if t else e.orelse, env, depth + 1)
+            a, b = self.ev(e.body, env, depth + 1), self.ev(e.orelse, env, depth + 1)
+            return a if a is not _OPQ and a == b else _OPQ
+        if isinstance(e, ast.Call) and call_name(e) == 'bool' and len(e.args) == 1 and not e.keywords:
+            return self.ev(e.args[0], env, depth + 1)
+        return _OPQ
+
+    def depends(self, node) -> bool:
+        """does the construct contain a dimension test (directly or through a flag local)?"""
+        for n in ast.walk(node):
+            if self.dim_of(n) is not None:
+                return True
+            if isinstance(n, ast.Name) and isinstance(n.ctx, ast.Load):
+                if n.id not in self._flagname:
+                    self._flagname[n.id] = False
+                    v = self._local_value(n.id)
+                    self._flagname[n.id] = v is not None and self.depends(v)
+                if self._flagname[n.id]:
+                    return True
+        return False
+
+    # -- patterns ---------------------------------------------------------
+    def _matches(self, p, v) -> bool:
+        if isinstance(p, ast.MatchAs):
+            return True if p.pattern is None else self._matches(p.pattern, v)
+        if isinstance(p, ast.MatchOr):
+            return any(self._matches(q, v) for q in p.patterns)
+        if isinstance(p, ast.MatchSingleton):
+            return v is p.value
+        if isinstance(p, ast.MatchValue) and isinstance(p.value, ast.Constant):
+            return not isinstance(v, tuple) and v == p.value.value
+        if isinstance(p, ast.MatchSequence) and not any(isinstance(q, ast.MatchStar) for q in p.patterns):
+            return isinstance(v, tuple) and len(v) == len(p.patterns) and \
+                all(self._matches(q, x) for q, x in zip(p.patterns, v))
+        raise ValueError(f'case pattern form not recognised: {norm(p)}')
+
+    # -- statements -------------------------------------------------------
+    def spec(self, stmts, env, sel=None):
+        """([(statement, line of the deciding construct)], every path ends in return/raise/continue/break?)"""
+        out = []
+        for s in stmts:
+            if isinstance(s, ast.If):
+                v = self.ev(s.test, env)
+                if isinstance(v, bool):
+                    o, t = self.spec(s.body if v else s.orelse, env, s.lineno)
+                    out += o
+                    if t:
+                        return out, True
+                    continue
+                if not self.depends(s):
+                    out.append((s, sel))
+                    if _ends(s.body) and _ends(s.orelse):
+                        return out, True
+                    continue
+                b, tb = self.spec(s.body, env, None)
+                o, to = self.spec(s.orelse, env, None)
+                c = ast.If(test=s.test, body=[x for x, _ in b] or [ast.Pass()], orelse=[x for x, _ in o])
+                out.append((ast.copy_location(c, s), sel))
+                if tb and to:
+                    return out, True
+            elif isinstance(s, ast.Match):
+                v = self.ev(s.subject, env)
+                if v is _OPQ:
+                    if self.depends(s):
+                        raise ValueError(f'match subject is not decided by the dimension tests: {norm(s.subject)}')
+                    out.append((s, sel))
+                    continue
+                for c in s.cases:
+                    if not self._matches(c.pattern, v):
+                        continue
+                    if c.guard is not None:
+                        g = self.ev(c.guard, env)
+                        if not isinstance(g, bool):
+                            raise ValueError(f'case guard is not decided by the dimension tests: {norm(c.guard)}')
+                        if not g:
+                            continue
+                    o, t = self.spec(c.body, env, c.pattern.lineno)
+                    out += o
+                    if t:
+                        return out, True
+                    break
+            elif isinstance(s, (ast.Return, ast.Raise, ast.Continue, ast.Break)):
+                out.append((s, sel))
+                return out, True
+            elif isinstance(s, (ast.For, ast.AsyncFor, ast.While, ast.With, ast.AsyncWith, ast.Try)) and self.depends(s):
+                kw = {}
+                term = False
+                for f in ('body', 'orelse', 'finalbody'):
+                    if hasattr(s, f):
+                        o, t = self.spec(getattr(s, f), env, None)
+                        kw[f] = [x for x, _ in o] or ([ast.Pass()] if f == 'body' else [])
+                        term = term or (t and f == 'body' and isinstance(s, (ast.With, ast.AsyncWith)))
+                c = type(s)(**{f: kw.get(f, getattr(s, f)) for f in s._fields})
+                out.append((ast.copy_location(c, s), sel))
+                if term:
+                    return out, True
             else:
-                raise ValueError(norm(p))
-        return set(itertools.product(*opts))
-    raise ValueError(norm(p))
+                r = self._table_lookup(s, env)
+                if r == 'missing':
+                    x = ast.Raise(exc=ast.Name(id='KeyError', ctx=ast.Load()), cause=None)
+                    out.append((ast.copy_location(x, s), s.lineno))
+                    return out, True
+                if r == 'hit':
+                    self.indirect.add(id(s))
+                    out.append((s, s.lineno))
+                else:
+                    out.append((s, sel))
+        return out, False
+
+    def _table_lookup(self, s, env):
+        """`{(False, False): f, ...}[(has_sp, has_tm)]` inside a simple statement: 'hit' | 'missing' | None"""
+        for n in ast.walk(s):
+            if not isinstance(n, ast.Subscript):
+                continue
+            tbl = n.value
+            if isinstance(tbl, ast.Name):
+                tbl = self._local_value(tbl.id)
+            if not isinstance(tbl, ast.Dict) or not self.depends(n.slice):
+                continue
+            k = self.ev(n.slice, env)
+            keys = [self.ev(x, env) if x is not None else _OPQ for x in tbl.keys]
+            if k is _OPQ or any(x is _OPQ for x in keys):
+                raise ValueError(f'dispatch table lookup not decided by the dimension tests: {norm(n)[:60]}')
+            return 'hit' if k in keys else 'missing'
+        return None
+
+    def table(self):
+        """{row (tuple over self.dims): Arm}"""
+        runs = {}
+        for row in itertools.product([False, True], repeat=len(self.dims)):
+            runs[row] = self.spec(self.fi.node.body, dict(zip(self.dims, row)))[0]
+        common = None
+        for r in runs.values():
+            ids = {id(s) for s, _ in r}
+            common = ids if common is None else common & ids
+        out = {}
+        for row, r in runs.items():
+            own = [(s, sel) for s, sel in r if id(s) not in common]
+            line = next((sel or s.lineno for s, sel in own), self.fi.node.lineno)
+            out[row] = Arm([s for s, _ in own], line, any(id(s) in self.indirect for s, _ in own))
+        return out
+
+
+def _ends(body) -> bool:
+    """every path through the block leaves it by return/raise/continue/break (syntactic, conservative)"""
+    l = last_stmt(body)
+    if isinstance(l, (ast.Return, ast.Raise, ast.Continue, ast.Break)):
+        return True
+    if isinstance(l, ast.If):
+        return bool(l.orelse) and _ends(l.body) and _ends(l.orelse)
+    if isinstance(l, (ast.With, ast.AsyncWith)):
+        return _ends(l.body)
+    return False
 
 
 def rule_tables(ctx, m, legal):
     prog = ctx.prog
     fs = prog.module(FS)
     tables = [
-        (fs.func('FieldMetadata.empty'), True),
-        (fs.func('FieldMetadata.convert_in'), True),
-        (m.func('TrajectoryStore._write_to_nc_var'), False),
-        (m.func('TrajectoryStore._read_from_nc_var'), True),
+        fs.func('FieldMetadata.empty'),
+        fs.func('FieldMetadata.convert_in'),
+        m.func('TrajectoryStore._write_to_nc_var'),
+        m.func('TrajectoryStore._read_from_nc_var'),
     ]
     ntab = 0
     arms = {}
-    for fi, need_default in tables:
-        ms = [n for n in walk_no_nested(fi.node) if isinstance(n, ast.Match)]
-        if len(ms) != 1:
-            ctx.undecided('C03-R3', fi, 'match', f'{len(ms)} match statements (dispatch idiom changed)')
-        mt = ms[0]
-        dims = _subject_dims(fi, mt)
-        if dims is None:
-            ctx.undecided('C03-R3', fi, norm(mt.subject), 'match subject is not a tuple of `Dimension.X in …` tests')
+    for fi in tables:
+        try:
+            dp = Dispatch(fi)
+            if not dp.dims:
+                raise ValueError('no `Dimension.X in …` test decides what is done (dispatch idiom changed)')
+            table = dp.table()
+        except ValueError as e:
+            ctx.undecided('C03-R3', fi, 'dimension dispatch', str(e))
+        dims = dp.dims
         ntab += 1
-        covered = {}
-        default = None
-        for c in mt.cases:
-            try:
-                rows = _pattern_rows(c.pattern, len(dims))
-            except ValueError as e:
-                ctx.undecided('C03-R3', fi, str(e), 'case pattern form not recognised')
-            if rows is None:
-                default = c
-                continue
-            for r in rows:
-                covered.setdefault(r, c)
-        arms[fi.qualname] = (dims, covered, default, mt)
+        covered = {row: a for row, a in table.items() if a.kind == 'arm'}
+        ctx.floor(f'C03-R3/{fi.name}', len({id(a.body[0]) for a in covered.values()}), 2, 'distinct arms')
+        arms[fi.qualname] = (dims, covered, table)
         for combo in legal:
             row = tuple(combo[d] for d in dims)
-            ok = row in covered
+            a = table[row]
+            ok = a.kind == 'arm'
             ctx.ob('C03-R3', fi, f'arm for {"".join(k[0] for k, v in combo.items() if v) or "scalar"} '
                    f'({", ".join(f"{d}={combo[d]}" for d in dims)})', ok,
-                   f'case at line {covered[row].pattern.lineno}' if ok else
-                   'a legal field shape has no arm: values of that shape hit the default / fall through',
-                   line=mt.lineno)
-        illegal_rows = set(itertools.product([False, True], repeat=len(dims))) - \
-            {tuple(c[d] for d in dims) for c in legal}
-        if need_default or illegal_rows - set(covered):
-            ok = default is not None and any(isinstance(s, ast.Raise) for s in default.body)
-            ctx.ob('C03-R3', fi, 'default arm raises', ok,
-                   'illegal combinations are refused' if ok else 'no raising default arm', line=mt.lineno,
-                   nontrivial=False)
+                   f'arm at line {a.lineno}' if ok else
+                   ('a legal field shape has no arm: values of that shape ' +
+                    ('are refused (they reach the raise at line %d)' % a.lineno if a.kind == 'refuse' else
+                     'fall through and nothing is done for them')),
+                   line=a.lineno)
+        illegal_rows = set(table) - {tuple(c[d] for d in dims) for c in legal}
+        if illegal_rows:
+            silent = sorted(r for r in illegal_rows if table[r].kind == 'none')
+            ctx.ob('C03-R3', fi, 'combinations outside the legal ones do not pass silently', not silent,
+                   f'{sum(table[r].kind == "refuse" for r in illegal_rows)} of {len(illegal_rows)} raise' if not silent else
+                   f'{[dict(zip(dims, r)) for r in silent]} fall through: no arm and no raise', nontrivial=False)
     ctx.floor('C03-R3', ntab, 4, 'dimension case tables')
+    # positive control: the four equivalent spellings of one dispatch give one table, and a dropped case is seen
+    ctx.control('C03-R3', _dispatch_control(), 'embedded dispatch spellings (match / elif / guard clauses / nested) agree; '
+                'a missing case is seen')
     return arms
+
+
+_CONTROL_SRC = """
+def a(self, f, v):
+    match (Dimension.S in f.dimensions, Dimension.T in f.dimensions):
+        case (False, False):
+            return 0
+        case (False, True):
+            return 1
+        case (True, False):
+            return 2
+        case _:
+            raise ValueError()
+def b(self, f, v):
+    s = Dimension.S in f.dimensions
+    t = Dimension.T in f.dimensions
+    if not s and not t:
+        return 0
+    elif not s:
+        return 1
+    elif not t:
+        return 2
+    else:
+        raise ValueError()
+def c(self, f, v):
+    s, t = Dimension.S in f.dimensions, Dimension.T in f.dimensions
+    if not s:
+        if not t:
+            return 0
+        return 1
+    if t:
+        raise ValueError()
+    return 2
+def d(self, f, v):
+    key = (Dimension.S in f.dimensions, Dimension.T in f.dimensions)
+    if key == (True, True):
+        raise ValueError()
+    if Dimension.S not in f.dimensions:
+        return 1 if Dimension.T in f.dimensions else 0
+    return 2
+def e(self, f, v):
+    s = Dimension.S in f.dimensions
+    t = Dimension.T in f.dimensions
+    if not s and not t:
+        return 0
+    elif not t:
+        return 2
+    elif s:
+        raise ValueError()
+"""
+
+
+def _dispatch_control() -> bool:
+    class _F:
+        def __init__(self, node):
+            self.node = node
+            self.params = [a.arg for a in node.args.args]
+    mod = ast.parse(_CONTROL_SRC)
+    for x in ast.walk(mod):
+        for ch in ast.iter_child_nodes(x):
+            ch._parent = x
+    sig = {}
+    for f in mod.body:
+        t = Dispatch(_F(f)).table()
+        sig[f.name] = {row: (a.kind, norm(a.body[0]) if a.body else '') for row, a in t.items()}
+    same = sig['a'] == sig['b'] == sig['c']
+    d_ok = {r: k for r, (k, _) in sig['d'].items()} == {r: k for r, (k, _) in sig['a'].items()}
+    e_gap = sig['e'][(False, True)][0] == 'none' and sig['e'][(True, True)][0] == 'refuse'
+    return same and d_ok and e_gap and sig['a'][(True, True)][0] == 'refuse' and sig['a'][(True, False)][0] == 'arm'
 
 
 # ---------------------------------------------------------------- R2 -----
 def rule_absent(ctx, m, arms):
     wr = m.func('TrajectoryStore._write_to_nc_var')
     rd = m.func('TrajectoryStore._read_from_nc_var')
-    wdims, wcov, _, _ = arms[wr.qualname]
-    rdims, rcov, _, _ = arms[rd.qualname]
+    wdims, wcov, _ = arms[wr.qualname]
+    rdims, rcov, _ = arms[rd.qualname]
     # writer: None handling
     none_if = [n for n in wr.node.body if isinstance(n, ast.If) and norm(n.test) in ('val is None', 'None is val')]
     okn = bool(none_if) and any(isinstance(s, ast.Return) for s in none_if[0].body) and \
@@ -363,7 +652,10 @@ def rule_absent(ctx, m, arms):
             continue
         if any(combo[d] for d in ('POINT', 'THRUST_MODE')) and combo.get('POINT') and combo.get('THRUST_MODE'):
             continue
-        label = ''.join(d[0] for d in rdims if combo[d]) or 'scalar'
+        label = shape_label(combo)
+        if case.indirect or wcase.indirect:
+            ctx.undecided('C03-R2', rd, f'arm {label}', 'the arm is reached through a dispatch table of callables; its body is '
+                          'not in this function')
         # R2b: per-point cells are variable-length: a cell that was never written reads back as an empty array, and the
         # reader uses emptiness as its "never written" marker (`all(cell == fill)` is vacuously true for an empty cell,
         # `len(v) > 0` filters species).  That marker must not be met by a value that can legitimately be stored: it is,
@@ -386,15 +678,15 @@ def rule_absent(ctx, m, arms):
                    (f'the marker is emptiness (`{marker}`), an empty per-point array is what a zero-point trajectory stores, and `add` accepts zero-point trajectories: '
                     'its arrays read back as unset (None)' + (' and its species are dropped' if combo['SPECIES'] else
                                                                '; for a required field _load_trajectory then fails with TypeError (len(None))')),
-                   line=case.pattern.lineno)
+                   line=case.lineno)
         # can the writer skip a cell in this arm?
-        w_skips = [n for n in ast.walk(wcase) if isinstance(n, ast.If) and
+        w_skips = [n for n in wcase.walk() if isinstance(n, ast.If) and
                    any(isinstance(o, ast.In) for c in ast.walk(n.test) if isinstance(c, ast.Compare) for o in c.ops)]
         arm_src = ' '.join(norm(s) for s in case.body)
         if combo['SPECIES']:
             if not w_skips:
                 ctx.ob('C03-R2', rd, f'reader arm {label}: writer writes every cell', True,
-                       'no skip in the writer arm, nothing to filter', line=case.pattern.lineno, nontrivial=False)
+                       'no skip in the writer arm, nothing to filter', line=case.lineno, nontrivial=False)
                 continue
             comps = [n for s in case.body for n in ast.walk(s)
                      if isinstance(n, (ast.DictComp, ast.ListComp, ast.GeneratorExp)) and
@@ -415,13 +707,13 @@ def rule_absent(ctx, m, arms):
                    f'species mapping filtered by {recognised}' if ok else
                    ('the writer skips species a value does not contain (`if sp in val`) but this reader arm '
                     'rebuilds every species of the file for every field: species are invented on read-back'),
-                   line=case.pattern.lineno)
+                   line=case.lineno)
         elif not combo['THRUST_MODE']:
             ok = 'get_fill_value' in arm_src and 'return None' in arm_src
             ctx.ob('C03-R2', rd, f'reader arm {label}: unset value reads back as None', ok,
                    'fill value → None' if ok else
                    'an optional value that was never written does not read back as unset',
-                   line=case.pattern.lineno)
+                   line=case.lineno)
 
 
 # ---------------------------------------------------------------- R4 -----
@@ -721,22 +1013,475 @@ def rule_cast(ctx):
            'the safety check of the cast changed', nontrivial=False)
 
 
+# ---------------------------------------------------------------- R9 -----
+_WRAPPERS = ('sorted', 'list', 'set', 'tuple', 'frozenset', 'reversed', 'iter', 'enumerate')
+_ACCUM = ('update', 'add', 'extend', 'append', 'union')
+_FILTERS = ('filter', 'islice', 'itertools.islice', 'takewhile', 'itertools.takewhile', 'dropwhile',
+            'itertools.dropwhile', 'compress', 'itertools.compress', 'random.sample', 'sample', 'filterfalse',
+            'itertools.filterfalse')
+
+
+def _arg_for_param(fi, call, pname):
+    params = fi.params
+    if pname not in params:
+        return None
+    k = kwarg(call, pname)
+    if k is not None:
+        return k
+    idx = params.index(pname) - (1 if params[:1] in (['self'], ['cls']) and isinstance(call.func, ast.Attribute) else 0)
+    if 0 <= idx < len(call.args) and not any(isinstance(x, ast.Starred) for x in call.args[:idx + 1]):
+        return call.args[idx]
+    return None
+
+
+class _Site:
+    """one place where members enter a collection: `acc.update(X)` / `acc.add(x)` / `acc |= X` under loops, or a
+    comprehension"""
+
+    def __init__(self, fi, node, contributed, inits):
+        self.fi, self.node, self.contributed, self.inits = fi, node, contributed, inits
+
+
+def _members_of(prog, fi, e, written_cls, depth=0, seen=None):
+    """Trace where the members of collection expression e come from: list of _Site | ('file', node) |
+    ('unknown', fi, node)."""
+    seen = seen if seen is not None else set()
+    if depth > 8 or (fi.qualname, id(e)) in seen:
+        return []
+    seen.add((fi.qualname, id(e)))
+    if isinstance(e, ast.BoolOp) and isinstance(e.op, ast.Or):      # X or []
+        return [x for v in e.values for x in _members_of(prog, fi, v, written_cls, depth + 1, seen)]
+    if isinstance(e, (ast.List, ast.Tuple, ast.Set)) and not e.elts:
+        return []
+    if isinstance(e, ast.Call) and call_name(e) in ('set', 'list') and not e.args:
+        return []
+    if isinstance(e, ast.Constant) and e.value is None:
+        return []
+    if isinstance(e, ast.Call) and call_name(e) in _WRAPPERS and e.args:
+        return _members_of(prog, fi, e.args[0], written_cls, depth + 1, seen)
+    if isinstance(e, ast.BinOp) and isinstance(e.op, (ast.BitOr, ast.Add)):
+        return _members_of(prog, fi, e.left, written_cls, depth + 1, seen) + \
+            _members_of(prog, fi, e.right, written_cls, depth + 1, seen)
+    if isinstance(e, (ast.SetComp, ast.ListComp, ast.GeneratorExp)):
+        return [_Site(fi, e, e.elt, [])]
+    if isinstance(e, ast.Name):
+        if e.id in fi.params:
+            out = []
+            for caller, call in callers_of(prog, fi):
+                arg = _arg_for_param(fi, call, e.id)
+                if arg is None:
+                    d = _default_of(fi, e.id)
+                    if d is None:
+                        out.append(('unknown', caller, call))
+                    else:
+                        out += _members_of(prog, fi, d, written_cls, depth + 1, seen)
+                else:
+                    out += _members_of(prog, caller, arg, written_cls, depth + 1, seen)
+            return out
+        out = []
+        defs = local_defs(fi.node, e.id)
+        inits = [d for d in defs if isinstance(d, (ast.Assign, ast.AnnAssign))]
+        for d in defs:
+            if isinstance(d, (ast.Assign, ast.AnnAssign)) and d.value is not None:
+                if isinstance(d, ast.Assign) and not (len(d.targets) == 1 and isinstance(d.targets[0], ast.Name)):
+                    out.append(('unknown', fi, d))
+                    continue
+                # `acc = acc | X` is an accumulation, not an initialisation
+                if any(isinstance(x, ast.Name) and x.id == e.id for x in ast.walk(d.value)):
+                    rest = [v for v in (getattr(d.value, 'left', None), getattr(d.value, 'right', None),
+                                        *(getattr(d.value, 'args', []) or []))
+                            if v is not None and not (isinstance(v, ast.Name) and v.id == e.id)]
+                    out += [_Site(fi, d, v, [x for x in inits if x is not d]) for v in rest] or [('unknown', fi, d)]
+                    continue
+                out += _members_of(prog, fi, d.value, written_cls, depth + 1, seen)
+            elif isinstance(d, ast.AugAssign):
+                out.append(_Site(fi, d, d.value, inits))
+            elif not isinstance(d, (ast.Assign, ast.AnnAssign)):
+                out.append(('unknown', fi, d))
+        for c in calls_in(fi.node):
+            if isinstance(c.func, ast.Attribute) and isinstance(c.func.value, ast.Name) and c.func.value.id == e.id \
+                    and c.func.attr in _ACCUM and isinstance(parent(c), ast.Expr):
+                for a_ in c.args:
+                    out.append(_Site(fi, c, a_.value if isinstance(a_, ast.Starred) else a_, inits))
+        return out
+    if isinstance(e, ast.Attribute):
+        owner = expr_class(prog, fi, e.value)
+        owners = [owner] if owner is not None else ([written_cls] if written_cls is not None else [])
+        for c in owners:
+            meth = c.find_method(e.attr)
+            if meth is not None and any('property' in d for d in meth.decorators()):
+                out = []
+                for r in walk_no_nested(meth.node):
+                    if isinstance(r, ast.Return) and r.value is not None:
+                        out += _members_of(prog, meth, r.value, written_cls, depth + 1, seen)
+                return out
+            if e.attr in c.all_fields():
+                return [('file', e)]
+        if classify_axis_source(prog, fi, e) == 'file' and owner is None and written_cls is None:
+            return [('file', e)]
+        return [('unknown', fi, e)]
+    if isinstance(e, ast.Call):
+        callee = resolve_call(prog, fi, e)
+        if callee is not None:
+            out = []
+            for r in walk_no_nested(callee.node):
+                if isinstance(r, ast.Return) and r.value is not None:
+                    out += _members_of(prog, callee, r.value, written_cls, depth + 1, seen)
+            return out
+    return [('unknown', fi, e)]
+
+
+def _block_of(par, child):
+    for f in ('body', 'orelse', 'finalbody'):
+        blk = getattr(par, f, None)
+        if isinstance(blk, list) and any(x is child for x in blk):
+            return blk
+    for h in getattr(par, 'handlers', []) or []:
+        if any(x is child for x in h.body):
+            return h.body
+    return None
+
+
+def reach_facts(stmt, top):
+    """Conditions under which `stmt` runs in one pass of the loop `top` (a For/While enclosing it, or the function):
+    the tests of the enclosing ifs, and of the earlier guard clauses (`if c: continue/return/raise/break`) of every
+    enclosing block.  -> ([(test, polarity)], complex?)"""
+    facts, cx = [], False
+    child = stmt
+    for a in ancestors(stmt):
+        blk = _block_of(a, child)
+        if isinstance(a, ast.If) and blk is not None:
+            facts.append((a.test, blk is a.body))
+        elif isinstance(a, ast.While) and blk is a.body and a is not top:
+            facts.append((a.test, True))
+        if blk is not None:
+            for p in blk[:next(i for i, x in enumerate(blk) if x is child)]:
+                if isinstance(p, ast.If):
+                    be, oe = _ends(p.body), bool(p.orelse) and _ends(p.orelse)
+                    if be and not oe:
+                        facts.append((p.test, False))
+                        inner = p.body[:-1] + p.orelse
+                    elif oe and not be:
+                        facts.append((p.test, True))
+                        inner = p.body + p.orelse[:-1]
+                    else:
+                        inner = [p]
+                        cx = cx or (be and oe)
+                else:
+                    inner = [p]
+                if any(isinstance(x, (ast.Continue, ast.Break, ast.Return)) for q in inner for x in walk_no_nested(q)):
+                    cx = True
+        if a is top or isinstance(a, (ast.FunctionDef, ast.AsyncFunctionDef)):
+            break
+        child = a
+    return facts, cx
+
+
+def _plain_iter(e):
+    """the loop visits every member of its source (no slice, no filter)"""
+    while True:
+        if isinstance(e, ast.Call) and call_name(e) in _WRAPPERS and e.args:
+            e = e.args[0]
+        elif isinstance(e, ast.Call) and isinstance(e.func, ast.Attribute) and e.func.attr in ('items', 'keys', 'values') \
+                and not e.args:
+            e = e.func.value
+        else:
+            break
+    for n in ast.walk(e):
+        if isinstance(n, ast.Slice):
+            return False
+        if isinstance(n, ast.Call) and call_name(n) in _FILTERS:
+            return False
+        if isinstance(n, ast.comprehension) and n.ifs:
+            return False
+    return True
+
+
+def _value_of(contributed):
+    """V for `V.keys()`, `V`, `set(V)`, `*V`"""
+    e = contributed
+    while True:
+        if isinstance(e, ast.Call) and isinstance(e.func, ast.Attribute) and e.func.attr in ('keys', 'items', 'values') \
+                and not e.args:
+            e = e.func.value
+        elif isinstance(e, ast.Call) and call_name(e) in _WRAPPERS and e.args:
+            e = e.args[0]
+        else:
+            return e
+
+
+def _value_base(v):
+    """container of the values: `self._data` for `self._data[name]`, `data` for `getattr(data, f)`"""
+    if isinstance(v, ast.Subscript):
+        return norm(v.value)
+    if isinstance(v, ast.Call) and call_name(v) == 'getattr' and v.args:
+        return norm(v.args[0])
+    if isinstance(v, ast.Call) and isinstance(v.func, ast.Attribute) and v.func.attr == 'get':
+        return norm(v.func.value)
+    return None
+
+
+def categorise_fact(fn_node, e, pol, itemvars, V, depth=0):
+    """What a condition (known to have truth value `pol` where the collection / the write happens) selects by:
+    [(category, polarity)] with category in
+      'global'          not a function of the item (field) visited
+      'dim:<NAME>'      `Dimension.NAME in <item>.dimensions`
+      'value'           the value of the field is set (not None / present / of the mapping type): polarity True;
+                        is unset: polarity False
+      'meta:<attr>'     an attribute of the item's metadata (e.g. required)
+      'ident:<text>'    anything else about the item (its name, its position, …)
+      'other:<text>'    not understood"""
+    out = []
+    for f, p in conjuncts(e, pol):
+        if isinstance(f, ast.Name) and f.id not in itemvars and depth < 4:
+            v = single_def_value(fn_node, f.id)
+            if v is not None and not (V is not None and norm(V) == f.id):
+                out += categorise_fact(fn_node, v, p, itemvars, V, depth + 1)
+                continue
+        d = Dispatch.dim_of(f)
+        names = {x.id for x in ast.walk(f) if isinstance(x, ast.Name)}
+        txt = norm(f)
+        vtxt = norm(V) if V is not None else None
+        vbase = _value_base(V) if V is not None else None
+        if d is not None:
+            out.append((f'dim:{d[0]}', d[1] == p))
+            continue
+        on_value = vtxt is not None and any(norm(x) == vtxt for x in ast.walk(f) if isinstance(x, ast.expr))
+        if on_value:
+            present = None
+            if isinstance(f, ast.Compare) and len(f.ops) == 1 and isinstance(f.comparators[0], ast.Constant) \
+                    and f.comparators[0].value is None and norm(f.left) == vtxt:
+                present = isinstance(f.ops[0], (ast.IsNot, ast.NotEq)) == p
+            elif isinstance(f, ast.Call) and call_name(f) == 'isinstance' and norm(f.args[0]) == vtxt:
+                present = p
+            elif txt == vtxt:
+                present = p
+            out.append(('value', present) if present is not None else (f'other:{txt}', p))
+            continue
+        if vbase is not None and names & itemvars and (
+                (isinstance(f, ast.Compare) and len(f.ops) == 1 and isinstance(f.ops[0], (ast.In, ast.NotIn))
+                 and norm(f.comparators[0]) == vbase and isinstance(f.left, ast.Name)) or
+                (isinstance(f, ast.Call) and call_name(f) == 'hasattr' and f.args and norm(f.args[0]) == vbase)):
+            neg = isinstance(f, ast.Compare) and isinstance(f.ops[0], ast.NotIn)
+            out.append(('value', p != neg))
+            continue
+        if not names & itemvars:
+            out.append(('global', p))
+            continue
+        g = f
+        if isinstance(g, ast.Compare) and len(g.ops) == 1 and isinstance(g.comparators[0], ast.Constant) \
+                and isinstance(g.comparators[0].value, bool) and isinstance(g.ops[0], (ast.Is, ast.Eq, ast.IsNot, ast.NotEq)):
+            same = isinstance(g.ops[0], (ast.Is, ast.Eq)) == g.comparators[0].value
+            g, p = g.left, (p if same else not p)
+        if isinstance(g, ast.Attribute) and isinstance(g.value, ast.Name) and g.value.id in itemvars:
+            out.append((f'meta:{g.attr}', p))
+        else:
+            out.append((f'ident:{txt}', p))
+    return out
+
+
+def _site_conditions(site):
+    """([(category, polarity)], problem | None) for one collection site, relative to the loops that feed it"""
+    fi, node = site.fi, site.node
+    V = _value_of(site.contributed)
+    if isinstance(node, (ast.SetComp, ast.ListComp, ast.GeneratorExp)):
+        itemvars = {x.id for g in node.generators for x in ast.walk(g.target) if isinstance(x, ast.Name)}
+        facts = [(i, True) for g in node.generators for i in g.ifs]
+        iters = [g.iter for g in node.generators]
+        if isinstance(V, ast.Name) and V.id in itemvars:
+            # `… for sp in X` : the members are the elements of the innermost source
+            src = next((g.iter for g in node.generators if any(isinstance(x, ast.Name) and x.id == V.id
+                                                                  for x in ast.walk(g.target))), None)
+            V = _value_of(src) if src is not None else V
+            iters = [i for i in iters if i is not src]
+        cx = False
+    else:
+        st = stmt_of(node)
+        loops = [a for a in ancestors(st) if isinstance(a, (ast.For, ast.AsyncFor, ast.While))
+                 and not any(is_within(i, a) for i in site.inits)]
+        if not loops:
+            return [], None
+        top = loops[-1]
+        facts, cx = reach_facts(st, top)
+        itemvars = {x.id for lp in loops if not isinstance(lp, ast.While) for x in ast.walk(lp.target)
+                    if isinstance(x, ast.Name)}
+        iters = [lp.iter for lp in loops if not isinstance(lp, ast.While)]
+        if isinstance(V, ast.Name) and V.id in itemvars:
+            # `for sp in X: acc.add(sp)` : the members are the elements of X
+            src = next((lp for lp in loops if not isinstance(lp, ast.While)
+                        and any(isinstance(x, ast.Name) and x.id == V.id for x in ast.walk(lp.target))), None)
+            if src is not None:
+                V = _value_of(src.iter)
+                iters = [i for i in iters if i is not src.iter]
+        # leaving the loop early restricts what is visited, too
+        for lp in loops:
+            for x in walk_no_nested(lp):
+                if isinstance(x, (ast.Break, ast.Return)):
+                    cx = True
+    # locals of the loop body derived from the item (val = self._data[name]) count as the item
+    changed = True
+    while changed:
+        changed = False
+        for t, stx, how in stores_to(fi.node):
+            if isinstance(t, ast.Name) and t.id not in itemvars and how in ('assign', 'ann') and stx.value is not None \
+                    and (V is None or norm(V) != t.id) \
+                    and any(isinstance(x, ast.Name) and x.id in itemvars for x in ast.walk(stx.value)) \
+                    and single_def_value(fi.node, t.id) is None:
+                itemvars.add(t.id)
+                changed = True
+    cats = []
+    for e, pol in facts:
+        cats += categorise_fact(fi.node, e, pol, itemvars, V)
+    if cx:
+        return cats, 'the loop is left early or has guard clauses of a form not analysed'
+    if not all(_plain_iter(i) for i in iters):
+        return cats, 'the loop source is sliced or filtered'
+    return cats, None
+
+
+def writer_proceeds(ctx, m):
+    """The conditions on a field under which the writer writes it, read from the code: the guards of the call of
+    _write_to_nc_var in the field loops of _write_data, and the value-less early returns of _write_to_nc_var that do
+    not depend on the dimension dispatch (`if val is None: … return` -> proceeds when the value is set)."""
+    wd = m.func('TrajectoryStore._write_data')
+    wr = m.func('TrajectoryStore._write_to_nc_var')
+    out = set()
+    calls = [c for c in calls_in(wd.node) if call_name(c).endswith('_write_to_nc_var')]
+    ctx.floor('C03-R9/writer', len(calls), 1, 'call of _write_to_nc_var in _write_data')
+    vparam = None
+    for c in calls:
+        st = stmt_of(c)
+        loops = [a for a in ancestors(st) if isinstance(a, (ast.For, ast.While))]
+        if not loops:
+            ctx.undecided('C03-R9', wd, norm(c)[:50], 'the writer is not called from a loop over the fields')
+        facts, cx = reach_facts(st, loops[-1])
+        if cx or not all(_plain_iter(lp.iter) for lp in loops if isinstance(lp, ast.For)):
+            ctx.undecided('C03-R9', wd, norm(c)[:50], 'the field loop of the writer is filtered in a form not analysed')
+        itemvars = {x.id for lp in loops if isinstance(lp, ast.For) for x in ast.walk(lp.target) if isinstance(x, ast.Name)}
+        for t, stx, how in stores_to(loops[-1]):
+            if isinstance(t, ast.Name):
+                itemvars.add(t.id)
+        varg = _arg_for_param(wr, c, 'val') if 'val' in wr.params else None
+        for e, pol in facts:
+            out |= set(categorise_fact(wd.node, e, pol, itemvars, varg))
+        # which parameter of the writer carries the value: the one stored into the variable
+    stored = [st.value for t, st, how in stores_to(wr.node) if isinstance(t, ast.Subscript) and how == 'assign']
+    for v in stored:
+        while isinstance(v, ast.Subscript):
+            v = v.value
+        if isinstance(v, ast.Name) and v.id in wr.params:
+            vparam = v.id
+    if vparam is None:
+        ctx.undecided('C03-R9', wr, 'value parameter', 'cannot tell which parameter is stored into the variable')
+    dp = Dispatch(wr)
+    items = set(wr.params) - {'self'}
+    for r in walk_no_nested(wr.node):
+        if isinstance(r, ast.Return) and r.value is None:
+            gs = [(t, pol) for t, pol, _ in guards_of(r)]
+            if not gs or any(dp.depends(t) for t, _ in gs):
+                continue
+            cats = [c for t, pol in gs for c in categorise_fact(wr.node, t, pol, items, ast.Name(id=vparam, ctx=ast.Load()))]
+            cats = [c for c in cats if c[0] != 'global']
+            if len(cats) == 1:
+                # skipped when the fact holds -> written when it does not
+                c, p = cats[0]
+                if c.startswith('other:'):
+                    ctx.undecided('C03-R9', wr, c[6:][:50], 'early return of the writer under a condition not understood')
+                out.add((c, not p))
+            elif cats:
+                ctx.undecided('C03-R9', wr, norm(gs[0][0])[:50], 'early return of the writer under a compound condition')
+    return out
+
+
+def rule_species_domain(ctx, m):
+    """R9: writer domain within dimension domain."""
+    prog = ctx.prog
+    cd = m.func('_create_dimensions')
+    wd = m.func('TrajectoryStore._write_data')
+    written_cls = expr_class(prog, wd, ast.Name(id='traj', ctx=ast.Load())) if 'traj' in wd.params else None
+    # the expression that becomes the species axis
+    roots = []
+    for c in calls_in(cd.node):
+        if call_name(c) == 'create_enum_dimension' and c.args and isinstance(c.args[0], ast.Constant) \
+                and c.args[0].value == 'species':
+            vals = c.args[2] if len(c.args) > 2 else kwarg(c, 'values')
+            if vals is not None:
+                roots.append(vals)
+    ctx.floor('C03-R9/axis', len(roots), 1, 'creation of the species dimension from a species list')
+    found = []
+    for r in roots:
+        found += _members_of(prog, cd, r, written_cls)
+    proceeds = writer_proceeds(ctx, m) | {('value', True), ('dim:SPECIES', True)}
+    nsite = 0
+    seen = set()
+    for s in found:
+        if isinstance(s, tuple):
+            if s[0] == 'unknown':
+                ctx.undecided('C03-R9', s[1], norm(s[2])[:60], 'cannot tell where the members of the species list come from')
+            continue
+        if id(s.node) in seen:
+            continue
+        seen.add(id(s.node))
+        cats, problem = _site_conditions(s)
+        if ('dim:SPECIES', True) not in cats:
+            continue        # not a collection over species-indexed fields
+        nsite += 1
+        bad = [(c, p) for c, p in cats if c != 'global' and (c, p) not in proceeds]
+        und = [c for c, p in bad if c.startswith('other:')]
+        restr = [(c, p) for c, p in bad if not c.startswith('other:')]
+        if not restr and (und or problem):
+            ctx.undecided('C03-R9', s.fi, norm(s.node)[:60], problem or f'condition not understood: {und[0][6:]}')
+
+        def say(c, p):
+            kind, _, what = c.partition(':')
+            return {'meta': f'`{what}` is {p}', 'dim': f'the field has {"a" if p else "no"} {what} dimension',
+                    'ident': f'`{what}` is {p}', 'value': 'no value is set'}.get(kind, c)
+        ctx.ob('C03-R9', s.fi, f'species axis collected from every species-indexed field written: {norm(s.node)[:70]}',
+               not restr,
+               'collected under no condition on the field but "has a species dimension" / "value is set", as the writer writes'
+               if not restr else
+               ('the species that size and label the species axis of a new file are collected only from fields where ' +
+                ' and '.join(say(c, p) for c, p in restr) + ', but the writer (_write_data → _write_to_nc_var) writes every '
+                'species-indexed field whose value is set, placing each species at its position in that list: a species that '
+                'occurs only in a field left out of the collection has no slot and is silently not written (lost on read-back)'),
+               line=s.node.lineno)
+    ctx.floor('C03-R9', nsite, 2, 'species collections feeding the species axis (new store, associated file)')
+    # positive control
+    ctl = ast.parse('def species(self):\n acc = set()\n for name, field in self.dd.items():\n'
+                    '  if Dimension.SPECIES not in field.dimensions:\n   continue\n  if not field.required:\n   continue\n'
+                    '  acc.update(self._data[name].keys())\n return sorted(acc)')
+    for a_ in ast.walk(ctl):
+        for ch in ast.iter_child_nodes(a_):
+            ch._parent = a_
+    f = ctl.body[0]
+
+    class _F:
+        node = f
+        params = ['self']
+        qualname = 'species'
+    call = next(c for c in ast.walk(f) if isinstance(c, ast.Call) and call_name(c) == 'acc.update')
+    cats, problem = _site_conditions(_Site(_F, call, call.args[0], [f.body[0]]))
+    ctx.control('C03-R9', problem is None and ('dim:SPECIES', True) in cats and ('meta:required', True) in cats,
+                'embedded collection that skips optional fields is recognised as restricted')
+
+
 def run(ctx):
     m = ctx.prog.module(STORE)
     rule_cast(ctx)
-    rule_axis(ctx, m)
-    rule_same_file(ctx, m)
-    rule_accumulators(ctx, m)
     legal = legal_combinations(ctx, ctx.prog)
     ctx.stats['legal_dimension_combinations'] = [
         ''.join(k[0] for k, v in c.items() if v) or 'scalar' for c in legal]
     if len(legal) != 6:
         ctx.note(f'Dimensions.__init__ now admits {len(legal)} combinations (6 when the rules were written)')
     arms = rule_tables(ctx, m, legal)
+    rule_axis(ctx, m)
+    rule_same_file(ctx, m)
+    rule_accumulators(ctx, m)
     rule_absent(ctx, m, arms)
     rule_digest(ctx, m)
     rule_hash_gate(ctx, m)
     rule_index_use(ctx, m)
+    rule_species_domain(ctx, m)
     ctx.assumptions += [
         'netCDF4 returns the fill value for cells never written and an empty array for unwritten VL cells',
         'values equal to the fill value are not legitimate data',
